@@ -372,12 +372,13 @@ impl Process {
         }
         #[cfg(acts_verif)]
         crate::verif::log(format!(
-            "N {} {} {} {} {}",
+            "N {} {} {} {} {} {}",
             self.id,
             task.id,
             node.id(),
             node.kind(),
-            task.prev().unwrap_or("-".to_string())
+            task.prev().unwrap_or("-".to_string()),
+            node.level
         ));
         self.push_task(task.clone());
         task
